@@ -63,6 +63,42 @@ def check(tier, seed):
                     rep.violation('implementation-vs-oracle', [l], {'profile': 'checked', 'output': a, 'oracle': 'must be false'}, True)
                 elif core.canon(a) != core.canon(m_):
                     rep.violation('correspondence', [l], {'rust_checked': a, 'model_checked': m_[:200]}, False)
+    # --- lengths at which tr || M' (64 + 2 + |ctx| + |M| bytes) ends just before, on and just after a SHAKE256 block boundary (136 bytes): the
+    # signature is the crate's own for that tuple, and every bit of the last two and of the first message byte is flipped (an absorb path that
+    # mishandles a full block, or drops a tail, accepts one of these; the signer shares the path, so a reference signature would not show it)
+    totals = [t for k in (1, 2, 3) for t in range(136 * k - 66 - 3, 136 * k - 66 + 4)]
+    for si, s in enumerate(fam.SETS):
+        xi = bytes(rng.randrange(256) for _ in range(32))
+        pk, sk = fam.keypair(s, xi)
+        tuples = []
+        for t in totals:
+            for cl in ((0, t // 3) if (t + si) % 2 else (t // 2,)):
+                tuples.append((bytes((13 * i + t) % 256 for i in range(t - cl)), bytes((29 * i + t) % 256 for i in range(cl))))
+        souts = core.run_stream([core.RUST['fast']], [f"sign {s} pure bytes:{sk.hex()} {hx(m)} {hx(c)} ok:{'00' * 32}" for m, c in tuples])
+        lines, tags = [], []
+        for (m, c), so in zip(tuples, souts):
+            if not so.startswith('ok '):
+                rep.violation('implementation-vs-oracle', [f"sign {s} pure bytes:{sk.hex()} {hx(m)} {hx(c)} ok:{'00' * 32}"], {'output': so[:200], 'oracle': 'signing must succeed'}, True)
+                continue
+            sg = so.split()[1]
+            lines.append(f"verify {s} pure bytes:{pk.hex()} {hx(m)} {hx(c)} {sg}"); tags.append('unmodified tuple (block-boundary length)')
+            for bi in sorted(set([0, len(m) - 2, len(m) - 1])):
+                for bit in range(8):
+                    x = bytearray(m); x[bi] ^= 1 << bit
+                    lines.append(f"verify {s} pure bytes:{pk.hex()} {hx(x)} {hx(c)} {sg}"); tags.append('msg bit (block-boundary length)')
+            if c:
+                for bit in range(8):
+                    x = bytearray(c); x[-1] ^= 1 << bit
+                    lines.append(f"verify {s} pure bytes:{pk.hex()} {hx(m)} {hx(x)} {sg}"); tags.append('ctx bit (block-boundary length)')
+        outs = core.run_stream([core.RUST['fast']], lines)
+        rep.evaluations += len(lines)
+        for l, tg, o in zip(lines, tags, outs):
+            rep.count(tg)
+            want = 'true' if tg.startswith('unmodified') else 'false'
+            if o != want:
+                rep.violation('implementation-vs-oracle', [l], {'tag': tg, 'output': o, 'oracle': f'must be {want}'}, True)
+            else:
+                rep.nontrivial.add((tg, hash(l)))
     # --- the longest context and a multi-block message: every bit of both (the framing of M' has its own boundaries: 255-byte context,
     # SHAKE256 rate 136), honest signatures in a pure and a pre-hash mode
     for s in fam.SETS:
